@@ -48,11 +48,14 @@ def run(ctx):
     cases = []; meta = []
     for i in range(n):
         e = rnd.choice(EXPRS) if rnd.random() < 0.6 else exprgen.Gen(rnd).expr(rnd.choice([1, 2, 3]))
+        # one time in three the expression depends on a --set variable: variables and macros are visible in every option alike
+        sets = []
+        if rnd.random() < 0.33: sets = ['w=2']; e = '(? (= :w 2) %s null)' % e
         ev = alias_variants(e, rnd, tbl)
-        cs = {'sel': mkcase('S%d' % i, lib.new_cfg(select=[e + '=v']), data), 'alias': mkcase('L%d' % i, lib.new_cfg(select=[ev + '=v']), data),
-              'filter': mkcase('F%d' % i, lib.new_cfg(filter=e), data), 'sort': mkcase('O%d' % i, lib.new_cfg(sort=[e], select=['.=r', e + '=v']), data),
-              'group': mkcase('G%d' % i, lib.new_cfg(group=e), data), 'split': mkcase('P%d' % i, lib.new_cfg(split=e), data),
-              'macro': mkcase('M%d' % i, lib.new_cfg(set=['@mm=' + e], select=['@mm=v']), data),
+        cs = {'sel': mkcase('S%d' % i, lib.new_cfg(set=sets, select=[e + '=v']), data), 'alias': mkcase('L%d' % i, lib.new_cfg(set=sets, select=[ev + '=v']), data),
+              'filter': mkcase('F%d' % i, lib.new_cfg(set=sets, filter=e), data), 'sort': mkcase('O%d' % i, lib.new_cfg(set=sets, sort=[e], select=['.=r', e + '=v']), data),
+              'group': mkcase('G%d' % i, lib.new_cfg(set=sets, group=e), data), 'split': mkcase('P%d' % i, lib.new_cfg(set=sets, split=e), data),
+              'macro': mkcase('M%d' % i, lib.new_cfg(set=sets + ['@mm=' + e], select=['@mm=v']), data),
               'dot': None}
         if e.startswith('(') and re.match(r'\(([^\s().,"]+) \. ', e):
             cs['dot'] = mkcase('D%d' % i, lib.new_cfg(select=[re.sub(r'^\(([^\s().,"]+) \. ', r'(.\1 ', e) + '=v']), data)
